@@ -299,13 +299,22 @@ func (b Builder) abiExtendedFields(t types.Type, name string) (fields []llvm.Val
 		hash := b.Pkg.rtFunc("typehash")
 		env := b.abiType(t.Key())
 		hasher := b.aggregateValue(prog.Type(hashFunc, InGo), hash.impl, env.impl)
+		// A key or elem larger than MapMaxKeyBytes/MapMaxElemBytes is stored in the
+		// bucket as a pointer, so the slot size the runtime strides by is a pointer.
+		keySize, elemSize := prog.abi.Size(t.Key()), prog.abi.Size(t.Elem())
+		if flags&1 != 0 {
+			keySize = prog.abi.Size(types.Typ[types.UnsafePointer])
+		}
+		if flags&2 != 0 {
+			elemSize = prog.abi.Size(types.Typ[types.UnsafePointer])
+		}
 		fields = []llvm.Value{
 			b.abiType(abi.PublicType(t.Key())).impl,
 			b.abiType(abi.PublicType(t.Elem())).impl,
 			b.abiType(bucket).impl,
 			hasher.impl,
-			prog.IntVal(uint64(prog.abi.Size(t.Key())), prog.Byte()).impl,
-			prog.IntVal(uint64(prog.abi.Size(t.Elem())), prog.Byte()).impl,
+			prog.IntVal(uint64(keySize), prog.Byte()).impl,
+			prog.IntVal(uint64(elemSize), prog.Byte()).impl,
 			prog.IntVal(uint64(prog.abi.Size(bucket)), prog.Uint16()).impl,
 			prog.IntVal(uint64(flags), prog.Uint32()).impl,
 		}
